@@ -4624,4 +4624,66 @@ theorem Inv.content_defined {σ : State} {T : List V} (inv : Inv σ T) : ∀ v, 
   | some c => obtain ⟨tr, h⟩ := key (rank c + 1) v hv (fun c' hc' => by rw [hh] at hc'; cases hc'; omega); exact ⟨_, tr, h⟩
 
 
+/-! ## construction from containers -/
+
+/-- the tree a scalar value denotes (no heap involved) -/
+def scalarTree : V → Tree
+  | .null => .null
+  | .bool b => .bool b
+  | .int i => .num (Dy.ofInt i)
+  | .num d => .num (Dy.norm d.m d.e)
+  | .flt d => .num (Dy.norm d.m d.e)
+  | .sstr s => .str s
+  | .str s => .str s
+  | _ => .none
+
+theorem content_scalarTree {v : V} (hv : handleOf v = none) (f : Nat) (h : Heap) : content (f + 1) h v = some (scalarTree v) := by
+  cases v <;> simp [handleOf] at hv <;> rfl
+
+theorem mapO_scalar_arr (f : Nat) (h : Heap) : ∀ (items : List (Bytes × V)), (∀ kv ∈ items, handleOf kv.2 = none) →
+    mapO items (fun kv => content (f + 1) h kv.2) = some (items.map fun kv => scalarTree kv.2)
+  | [], _ => rfl
+  | kv :: rest, hs => by
+    simp only [mapO, content_scalarTree (hs kv (by simp)), mapO_scalar_arr f h rest (fun x hx => hs x (by simp [hx])), List.map_cons]
+
+theorem mapO_scalar_obj (f : Nat) (h : Heap) : ∀ (items : List (Bytes × V)), (∀ kv ∈ items, handleOf kv.2 = none) →
+    mapO items (fun kv => (content (f + 1) h kv.2).map (fun t => (kv.1, t))) = some (items.map fun kv => (kv.1, scalarTree kv.2))
+  | [], _ => rfl
+  | kv :: rest, hs => by
+    simp only [mapO, content_scalarTree (hs kv (by simp)), Option.map_some, mapO_scalar_obj f h rest (fun x hx => hs x (by simp [hx])), List.map_cons]
+
+theorem content_arr_of {f : Nat} {h : Heap} {id : Nat} {b : Block} (hb : getB h id = .ok b) :
+    content (f + 1) h (.arr id) = (mapO b.items (fun kv => content f h kv.2)).map Tree.arr := by
+  simp only [content, hb]
+
+theorem content_obj_of {f : Nat} {h : Heap} {id : Nat} {b : Block} (hb : getB h id = .ok b) :
+    content (f + 1) h (.obj id) = (mapO b.items (fun kv => (content f h kv.2).map (fun t => (kv.1, t)))).map Tree.obj := by
+  simp only [content, hb]
+
+/-- a root replaced by a handle to a freshly built block: the root holds the handle, the block is alive with exactly
+the elements it was built with, the invariant holds -/
+theorem ctor_block_spec (σ σ' : State) (k : Nat) (b : Block) (inv : Inv σ (bvals b)) (hrc : b.rc = 1)
+    (hs : b.isObj = true → SortedItems b.items)
+    (h : replaceSlot { σ with heap := σ.heap ++ [some b] } k (mkHandle b.isObj σ.heap.length) = .ok σ') :
+    σ'.slots[k]? = some (mkHandle b.isObj σ.heap.length) ∧ σ'.slots.length = σ.slots.length ∧
+    (∃ b', getB σ'.heap σ.heap.length = .ok b' ∧ b'.items = b.items ∧ b'.cap = b.cap) ∧ Inv σ' [] ∧
+    SubItems (σ.heap ++ [some b]) σ'.heap := by
+  have inv3 := Inv.alloc (σ := σ) (T := []) (b := b) (by simpa using inv) hrc hs
+  obtain ⟨hsl, hk, sub⟩ := replaceSlot_spec inv3 h
+  obtain ⟨σ'', h2, inv', hlen⟩ := inv3.replaceSlot hk
+  rw [h] at h2; cases h2
+  have hget : σ'.slots[k]? = some (mkHandle b.isObj σ.heap.length) := by
+    rw [hsl]; simp only [List.getElem?_set_self hk]
+  refine ⟨hget, hlen, ?_, inv', sub⟩
+  obtain ⟨b', hb', _⟩ := inv'.wf.live (mkHandle b.isObj σ.heap.length)
+    (Or.inl (by simp only [List.append_nil]; exact List.mem_of_getElem? hget)) _ (handleOf_mkHandle _ _)
+  obtain ⟨b0, hb0, e1, _, e3⟩ := sub.2 _ b' hb'
+  rw [getB_alloc_new] at hb0; cases hb0
+  exact ⟨b', hb', e1, e3⟩
+
+theorem mapO_map_snd {g : V → Option Tree} : ∀ (vals : List V),
+    mapO (vals.map (fun v => (([] : Bytes), v))) (fun kv => g kv.2) = mapO vals g
+  | [] => rfl
+  | v :: rest => by simp only [List.map_cons, mapO, mapO_map_snd rest]
+
 end AslModel.Var
